@@ -125,3 +125,32 @@ Definition m07_one (c : dcase) : bool := one_per_change (negb (matched0 c)) (ini
 Definition judge07 (c : dcase) : list bool :=
   let m := monitors07 c in
   [agree c; column 0 m; column 1 m; m07_one c; column 2 m; column 3 m; column 4 m; column 5 m].
+
+(** * Soundness of the per-pass creation monitors on the model (any hash function, any fault, any variant; fresh List). *)
+From PKO Require Import BaseProofs DeploymentProofs.
+
+Lemma pobj_eqb_refl p : SetCorr.pobj_eqb p p = true.
+Proof. unfold SetCorr.pobj_eqb. rewrite !N.eqb_refl, !eqb_reflx. destruct (po_cp p); reflexivity. Qed.
+
+Lemma phase_eqb_refl p : phase_eqb p p = true.
+Proof. unfold phase_eqb. rewrite N.eqb_refl, eqb_reflx. cbn. apply list_eqb_refl. apply pobj_eqb_refl. Qed.
+
+Lemma creates_in o n phs prev h : In (n, phs, prev, h) (creates o) -> exists cr, In (DCreate n phs prev h cr) (so_events o).
+Proof.
+  unfold creates. intros H. apply in_flat_map in H. destruct H as (e & He & H).
+  destruct e as [n0 p0 v0 h0 cr| | |]; try contradiction. destruct cr; try contradiction; destruct H as [H|[]]; injection H as <- <- <- <-; eauto.
+Qed.
+
+Theorem monitor_sound_create hash fault slices sliceaware rev0ok w w' evs r :
+  NoDup (map sname (dw_sets w)) -> dep_pass hash fault slices sliceaware rev0ok false w = (w', evs, r) ->
+  m07_spec (state_of w) (obs_of w' evs r) = true /\ m07_prev (state_of w) (obs_of w' evs r) = true.
+Proof.
+  intros Hnd Hp. split; apply forallb_forall; intros [[[n phs] prev] h] Hc; destruct (creates_in _ _ _ _ _ Hc) as (cr & Hi); cbn [so_events obs_of] in Hi;
+    destruct (create_justified hash fault slices sliceaware rev0ok false w w' evs r n phs prev h cr Hnd Hp Hi) as (Hpa & Hph & Hn0 & _ & _ & _ & -> & ->).
+  - cbn [st_dep state_of]. rewrite Hpa. cbn [negb andb]. rewrite (list_eqb_refl _ phase_eqb_refl).
+    destruct (d_phases (dw_dep w)); [now elim Hph|reflexivity].
+  - apply forallb_forall. intros x Hx. unfold my_sets, mine in Hx. apply filter_In in Hx. cbn [st_sets state_of] in Hx.
+    assert (HxL : In x (listed false w)) by (apply listed_fresh_iff; exact Hx).
+    apply andb_true_iff. split; [apply negb_true_iff, Z.eqb_neq; now apply Hn0|].
+    apply existsb_exists. exists (sname x). split; [now apply in_map|apply N.eqb_refl].
+Qed.
